@@ -150,6 +150,17 @@ def run(ctx):
                          "splitters permuted and repeated, condition values moved within the routed branch, a declared field removed; "
                          "converse measured over value and salt streams")
     run_batch(ctx, n)
+    # "the values of condition fields do not matter as long as the same return statement is selected" — also values of kinds the literals are not
+    progcases.run_cases(ctx, gen.membership_cases(ctx.rng, 60 if ctx.tier == "quick" else 1500), check_model=False, want_stages=False)
+    # sibling field names (digit runs, leading zeros): the key order is the code-point order of the names
+    rng = ctx.rng
+    cases = []
+    for names in (["f2", "f10"], ["f10", "f2", "f1"], ["bucket_1", "bucket_01"], ["bucket_01", "bucket_1", "bucket_001"], ["a9", "a10", "a09", "A10"]):
+        for decl in (names, list(reversed(names))):
+            prog = gen.Program("e", gen.lit_str("s", quote='"'), decl, ("ret", [(gen.lit_str("a", quote='"'), "1"), (gen.lit_str("b", quote='"'), "2"), (gen.lit_str("c", quote='"'), "1")]),
+                               {x: "any" for x in names})
+            cases.append({"prog": prog, "text": gen.render(prog, rng, "plain"), "envs": [{x: "v%d%s" % (k, x[-1]) for x in names} for k in range(6)]})
+    progcases.run_cases(ctx, cases, want_stages=False)
 
 
 def search(ctx):
